@@ -212,7 +212,7 @@ def TABLES():
 SITES = [
     # g0 len(dotted_parts) != 2, g1 method.startswith('_'), g2 rpcinterface is None, g3 not isinstance(func, MethodType)
     Site('supervisor/xmlrpc.py', 'traverse', 'traverse', '(parts : List (List Char)) (underscore nsPresent isMethod : Bool)',
-         {'dotted_parts': ('parts', 'list'), "method.startswith('_')": ('underscore', 'bool'),
+         {"method.split('.')": ('parts', 'list'), "method.startswith('_')": ('underscore', 'bool'),
           'rpcinterface': ('nsPresent', 'truthy:nsPresent'), 'isinstance(func, types.MethodType)': ('isMethod', 'bool'),
           'rpcinterface is None': ('(!nsPresent)', 'bool')},
          want={'traverse_g0', 'traverse_g1', 'traverse_g2', 'traverse_g3'}),
